@@ -11,6 +11,7 @@ from argparse import ArgumentParser
 
 import attr
 from werkzeug import test as werkzeug_test
+from werkzeug.urls import url_quote
 from werkzeug.utils import redirect
 from werkzeug.wrappers import Request, Response, BaseResponse
 
@@ -40,6 +41,7 @@ except NameError:
 
 
 _REQ_ID_ITER = itertools.count()
+_QS_SAFE = "/:?&=%+;,@!$'()*~[]"
 
 
 def cast_to_route_factory(in_arg):
@@ -297,9 +299,16 @@ class Application(object):
                 norm_path = normalize_path(url_path, route.is_branch)
                 if norm_path != url_path:
                     if route.slash_mode == S_REDIRECT:
-                        parts = [request.url_root.rstrip('/'),
-                                 norm_path, '?', request.query_string.decode('utf8')]
-                        return redirect(''.join(parts))  # TODO: error_handler
+                        # request.path is decoded, so it has to be quoted
+                        # again, or '?', '#' and '%' in a segment would
+                        # change which resource the Location names
+                        location = (request.url_root.rstrip('/')
+                                    + url_quote(norm_path))
+                        if request.query_string:
+                            # keep the query string byte for byte
+                            location += '?' + url_quote(request.query_string,
+                                                        safe=_QS_SAFE)
+                        return redirect(location)  # TODO: error_handler
                     elif route.slash_mode == S_STRICT:
                         nf_exc = err_handler.not_found_type(request=request,
                                                             application=self,
